@@ -1,2 +1,3 @@
 pub mod envelope;
 pub mod ray;
+pub mod uvalue;
